@@ -165,6 +165,9 @@ def extra_tie(pid, cfg, exe, chk, cases, seed, violations, broken, res):
         for l in ml:
             if l.startswith('OR ') and ' FAIL' in l and any(l.split(' ')[1].startswith(p) for p in cfg.get('oracles', ())):
                 violations.append({'kind': 'property-oracle', 'what': l, 'case': info, 'concrete': True})
+        if P.foreign_disagreement(cfg, il, ml, txt):
+            res['foreign_disagreements'] = res.get('foreign_disagreements', 0) + 1
+            continue
         if cfg.get('observable'):
             di, dm = P.Dump(il, txt), P.Dump(ml, txt)
             a, b = cfg['observable'](di, dm, il, ml)
